@@ -15,8 +15,8 @@ Open Scope Z_scope.
    leaf's path constraints, describes the result of the reference interpreter started from
    any concrete state related to the symbolic start state: same end kind, same return /
    revert data, same storage and transient storage of the executing account, same balances.
-   Stuck / out-of-fuel leaves make no claim.  The early invalid-jump leaf is excluded: see
-   C01_badjump_refuted. *)
+   Stuck / out-of-fuel leaves make no claim.  A JUMPI to an invalid destination is covered
+   (repaired by fix 104420e; see C01_badjump_repaired). *)
 Theorem C01_sound :
   forall lim se rho oracle loop,
     Forall (fun b => 0 <= b < 256) (se_code se) ->
@@ -59,10 +59,12 @@ Proof.
 Qed.
 Print Assumptions C01_follow_only_potential.
 
-(* ---- refuted conjunct (genuine defect, known finding F21) ----
+(* ---- the former finding F21 (repaired in /repo by 104420e), kept as a regression example ----
    code: PUSH1 4; CALLDATALOAD; PUSH1 0x77; JUMPI; STOP   with arg0 symbolic.
-   halmos (and the faithful model) reports ONE leaf, with an empty path condition, ending in
-   an invalid-jump halt; for arg0 = 0 the EVM falls through and stops successfully. *)
+   Before the repair halmos reported ONE leaf, with an empty path condition, ending in an
+   invalid-jump halt, although for arg0 = 0 the EVM falls through and stops successfully.  Now
+   the halt is reported under cond <> 0 and the fall-through under cond = 0 (and C01_sound
+   covers both leaves). *)
 Definition badjump_code : list Z := [96; 4; 53; 96; 119; 87; 0].
 Definition badjump_se : senv :=
   mkSEnv 1 badjump_code (TVar VCaller) (TVar VOrigin) (TVar VValue)
@@ -70,14 +72,14 @@ Definition badjump_se : senv :=
          (mkBlock 0 31337 0 0 0 1 1) [].
 Definition always_unknown (p : list cond) (c : term) (b : bool) : Z := R_UNKNOWN.
 
-Theorem C01_badjump_refuted :
-  exists rho,
-    fst (sexec 1048576 badjump_se always_unknown 2 10 init_sstate) = [mkLeaf [] LBadJumpEarly] /\
-    exists w, exec 1048576 10 (inst_env badjump_se rho) (init_state (mkWorld [] [] [] []) 0) = ROk w 0 [] [].
+Example C01_badjump_repaired :
+  map (fun l => (map snd (l_path l), match l_kind l with LHalt k => k | LOk _ _ _ => -1 | _ => -2 end))
+      (fst (sexec 1048576 badjump_se always_unknown 2 10 init_sstate))
+  = [([true], H_BADJUMP); ([false], -1)] /\
+  exists w, exec 1048576 10 (inst_env badjump_se (fun _ => 0)) (init_state (mkWorld [] [] [] []) 0) = ROk w 0 [] [].
 Proof.
-  exists (fun _ => 0). split; [vm_compute; reflexivity|]. eexists. vm_compute. reflexivity.
+  split; [vm_compute; reflexivity|]. eexists. vm_compute. reflexivity.
 Qed.
-Print Assumptions C01_badjump_refuted.
 
 (* ---- non-vacuity: a branching program, two leaves, both described correctly ----
    code: PUSH1 4; CALLDATALOAD; PUSH1 8; JUMPI; PUSH1 7; STOP ... JUMPDEST at 8: PUSH1 1; PUSH0; SSTORE; STOP *)
